@@ -1278,6 +1278,9 @@ class VM:
             while isinstance(holder, JSObject):
                 if key_str in holder._properties:
                     return holder._properties[key_str]
+                if holder is not obj and self._is_array_element(holder, key_str):
+                    # an array on the prototype chain: its elements and length
+                    return self._get_property(holder, key_str)
                 if key_str in holder._getters:
                     return self._invoke_getter(holder._getters[key_str], obj)
                 if key_str in holder._setters:
